@@ -315,8 +315,12 @@ class C06(ResolveSpec):
     def gen_cases(self, rng, n):
         cases = []
         for i in range(n):
-            c = gen.gen_resolve_case(rng, f"g{i}")
-            gen.boost_grants(rng, c)
+            if i % 3 == 2:
+                # unlocked: live peers with their own trusted tables (which must grant nothing)
+                c = gen.boost_peer_trusted(rng, gen.gen_unlocked_case(rng, f"g{i}"))
+            else:
+                c = gen.gen_resolve_case(rng, f"g{i}")
+                gen.boost_grants(rng, c)
             cases.append(c)
         return cases
 
@@ -372,6 +376,8 @@ class C12(ResolveSpec):
         for i in range(n):
             c = gen.gen_resolve_case(rng, f"g{i}")
             gen.boost_exemptions(rng, c)
+            if i % 3 == 1:
+                gen.boost_dense_success(rng, c)
             cases.append(c)
         return cases
 
